@@ -4,11 +4,21 @@
 (* size.  Event "render" records the focused rendering as a grid of painted ids, its cursor,  *)
 (* the cursor get_cursor_coords() reported BEFORE rendering, and per leaf: the size it was    *)
 (* rendered at and the matrix of answers the leaf itself gives to move_cursor_to_coords for   *)
-(* each of its own cells (asked on a separate copy).  Events "press" and "move" record what   *)
+(* each of its own cells (acc) and the cursor the leaf itself shows after accepting (acur),   *)
+(* asked on a separate copy in the same focus state.  Events "press" and "move" record what   *)
 (* the leaves received when the ROOT was sent a button-1 press / move_cursor_to_coords for a  *)
 (* cell of the rendered area (each on a fresh copy in the rendered state).                    *)
 (* All geometry (which leaf owns the cell, its painted origin, the translated coordinates,    *)
 (* the fit precondition) is computed here from the grid.                                      *)
+(*                                                                                            *)
+(* Histories.  The three views must agree in every state the widget tree reaches, not only in *)
+(* the freshly built one: after the last press / move the trace continues on a copy in the    *)
+(* rendered state with events "step": a key sent to the root (op key), the application moving *)
+(* the cursor of an Edit (op setpos) or of a probe (op probecur).  A step records the cursor  *)
+(* get_cursor_coords() reports BEFORE anything is rendered again, the cursor of the focused   *)
+(* rendering made afterwards, and the new grid / sizes; it is judged by the same sentence as  *)
+(* the first rendering, under the fit precondition of the NEW grid, and becomes the current   *)
+(* geometry (state variables grid, leaves, fits).                                             *)
 EXTENDS WidgetTreeOps, Json, IOUtils, TLC
 
 \* self-test of the geometry operators (evaluated by TLC at start-up)
@@ -58,6 +68,15 @@ PressVerdict(e) ==
          THEN "mouse_coords_relative_to_child_origin"
        ELSE "-"
 
+\* asked: <<leaf id, col, row, answer>> for every leaf whose move_cursor_to_coords was called
+AskedDrawnChild(asked, p, x, y) ==
+  /\ \E i \in 1..Len(asked) : asked[i][1] = p /\ asked[i][2] = x /\ asked[i][3] = y /\ asked[i][4] = 1
+  /\ \A i \in 1..Len(asked) : asked[i][4] = 1 => asked[i][1] = p
+CursorInDrawnChild(gcc, own, ox, oy) == Len(gcc) = 2 /\ Len(own) = 2 /\ gcc[1] = ox + own[1] /\ gcc[2] = oy + own[2]
+ASSUME /\ AskedDrawnChild(<< <<2, 0, 1, 1>> >>, 2, 0, 1) /\ ~AskedDrawnChild(<< <<1, 3, 1, 1>> >>, 2, 0, 1)
+       /\ ~AskedDrawnChild(<< <<2, 0, 1, 1>>, <<1, 3, 1, 1>> >>, 2, 0, 1) /\ AskedDrawnChild(<< <<1, 3, 1, 0>>, <<2, 0, 1, 1>> >>, 2, 0, 1)
+       /\ CursorInDrawnChild(<<5, 2>>, <<1, 0>>, 4, 2) /\ ~CursorInDrawnChild(<<3, 2>>, <<1, 0>>, 4, 2) /\ ~CursorInDrawnChild(<<>>, <<1, 0>>, 4, 2)
+
 MoveVerdict(e) ==
   LET p == Target(e.col, e.row) IN
   IF ~fits \/ p = 0 THEN "-"
@@ -68,18 +87,32 @@ MoveVerdict(e) ==
           ELSE IF e.exc # "" \/ (e.ret = 1) # accepts THEN "move_cursor_succeeds_iff_child_accepts"
           ELSE IF e.ret = 1 /\ (e.gcc_exc # "" \/ ~(Len(e.gcc_after) = 2 /\ e.gcc_after[2] = e.row)) THEN "cursor_on_requested_row"
           ELSE IF e.ret = 1 /\ ~SameCursor(e.gcc_after, e.rcur_after) THEN "cursor_coords_equal_render_cursor"
+          \* the widget that accepted is the one drawn at the cell, asked for the translated cell; no other leaf accepted anything
+          ELSE IF e.ret = 1 /\ ~AskedDrawnChild(e.asked, p, e.col - ox, e.row - oy) THEN "move_cursor_asks_child_drawn_at_cell"
+          \* ... and the cursor is now where that leaf itself puts it for that cell (the cell, or its own choice inside its area)
+          ELSE IF e.ret = 1 /\ ~CursorInDrawnChild(e.gcc_after, lf.acur[e.row - oy + 1][e.col - ox + 1], ox, oy) THEN "cursor_in_child_drawn_at_cell"
           ELSE "-"
+
+StepOps == {"key", "setpos", "probecur"}
+StepKeys == {"left", "right", "up", "down", "home", "end", "x", "backspace", "delete"}
+\* a step of the history: whatever it did, the cursor reported before the next rendering is the cursor of that rendering
+StepVerdict(e) ==
+  IF e.op \notin StepOps \/ (e.op = "key") # (e.key \in StepKeys) THEN "no_action"
+  ELSE IF ~Fits(e.grid, e.leaves, e.nodes) THEN "-"
+  ELSE IF e.exc # "" \/ ~SameCursor(e.gcc, e.rcur) THEN "cursor_coords_equal_render_cursor"
+  ELSE "-"
 
 Verdict(e) == CASE e.t = "render" -> RenderVerdict(e)
                 [] e.t = "press" -> PressVerdict(e)
                 [] e.t = "move" -> MoveVerdict(e)
+                [] e.t = "step" -> StepVerdict(e)
                 [] OTHER -> "no_action"
 
 Step == /\ ok /\ l < Len(Traces[tid].ev) /\ l' = l + 1 /\ tid' = tid
         /\ LET e == Traces[tid].ev[l + 1]
                v == Verdict(e)
            IN /\ why' = v /\ ok' = (v = "-")
-              /\ IF e.t = "render" THEN grid' = e.grid /\ leaves' = e.leaves /\ fits' = Fits(e.grid, e.leaves, e.nodes)
+              /\ IF e.t \in {"render", "step"} THEN grid' = e.grid /\ leaves' = e.leaves /\ fits' = Fits(e.grid, e.leaves, e.nodes)
                  ELSE UNCHANGED <<grid, leaves, fits>>
 Spec == Init /\ [][Step]_vars
 Report == ok \/ PrintT(<<"REJECT", tid, l, why>>)
